@@ -69,7 +69,8 @@ def run(scenario):
             from sim.refpeer import RefPeer
             rp = scenario['refpeer']
             conn = next(iter(configs.read_conf(rp['conf']).values()))
-            ctx['peer'] = RefPeer(w, rp['addr'], conn, rp['seed'])
+            # (40 % of these peers pick their DH scalars so that the shared secret begins with a zero octet; decided from the peer's seed)
+            ctx['peer'] = RefPeer(w, rp['addr'], conn, rp['seed'], {'zero_lead_secret': random.Random(f"zl:{rp['seed']}").random() < 0.4})
 
     def judge_refpeer(w, ctx, reach):
         peer = ctx['peer']
